@@ -5,6 +5,7 @@ import (
 	"sync"
 	"sync/atomic"
 
+	"go.dedis.ch/kyber/v3"
 	"go.dedis.ch/onet/v3"
 	"go.dedis.ch/onet/v3/log"
 )
@@ -25,6 +26,13 @@ type C14Swap struct {
 	A int64
 	S string
 	B []byte
+}
+
+// C14Key has an optional field of an interface type (the usual way to carry a
+// key in an onet message): the decoder does not reset such fields.
+type C14Key struct {
+	A int64
+	P kyber.Point
 }
 
 // REST (JSON) requests; the resource is the struct name
@@ -85,6 +93,18 @@ func (s *c14Service) swap(m *C14Swap) (*C14Reply, error) {
 	atomic.AddInt64(&c14Calls, 1)
 	return c14Transform("Swap", m.A, m.S, m.B)
 }
+func (s *c14Service) key(m *C14Key) (*C14Reply, error) {
+	atomic.AddInt64(&c14Calls, 1)
+	str := ""
+	if m.P != nil {
+		b, err := m.P.MarshalBinary()
+		if err != nil {
+			return nil, err
+		}
+		str = string(b)
+	}
+	return c14Transform("Key", m.A, str, nil)
+}
 func (s *c14Service) post(m *C14Post) (*C14Reply, error) {
 	atomic.AddInt64(&c14Calls, 1)
 	return c14Transform("Post", int64(m.A), m.S, m.B)
@@ -108,7 +128,7 @@ func (s *c14Service) getEmpty(m *C14Empty) (*C14Reply, error) {
 
 func newC14Service(c *onet.Context) (onet.Service, error) {
 	s := &c14Service{ServiceProcessor: onet.NewServiceProcessor(c)}
-	if err := s.RegisterHandlers(s.echo, s.swap); err != nil {
+	if err := s.RegisterHandlers(s.echo, s.swap, s.key); err != nil {
 		return nil, err
 	}
 	for _, r := range []struct {
